@@ -8,6 +8,7 @@ import Driver.ConcDrv
 import Driver.ResumeDrv
 import Driver.DurableDrv
 import Driver.ShutdownDrv
+import Driver.StressDrv
 open Driver
 
 def runDomain (dom : String) (lines : Array String) : Array String :=
@@ -23,6 +24,7 @@ def runDomain (dom : String) (lines : Array String) : Array String :=
   | "durable" => DurableDrv.runCase lines
   | "durablecheck" => DurableDrv.runJudge lines
   | "shutdown" => ShutdownDrv.runCase lines
+  | "stress" => StressDrv.runCase lines
   | _ => #["unknown-domain " ++ dom]
 
 def main (args : List String) : IO UInt32 := do
